@@ -87,6 +87,26 @@ func runCrashWorkload(r *rng, dir string) (*crashWorkload, error) {
 			b.Set([]byte("k0"), []byte("z"))
 			ref["k0"] = []byte("z")
 		}
+		if round > 0 && r.chance(1, 4) {
+			// the value of the empty key is the byte image of the footer an earlier round wrote
+			// (the last write of that round): it lands page-aligned at the start of this round's
+			// key/value bytes, exactly where the backward footer scan looks once the real footers
+			// behind it are torn
+			h.files.mu.Lock()
+			var img []byte
+			prev := w.rounds[r.intn(len(w.rounds))]
+			for i := prev.opsEnd - 1; i >= 0; i-- {
+				if h.files.ops[i].Kind == "write" && len(h.files.ops[i].Data) > 0 {
+					img = append([]byte{}, h.files.ops[i].Data...)
+					break
+				}
+			}
+			h.files.mu.Unlock()
+			if len(img) > 0 {
+				b.Set([]byte{}, img)
+				ref[""] = img
+			}
+		}
 		c.ExecuteBatch(b, moss.WriteOptions{})
 		b.Close()
 		nb++
